@@ -366,6 +366,9 @@ func cmdCheck(args []string) {
 			fallbackEv = append(fallbackEv, map[string]interface{}{"name": fb.Name, "label": "bounded", "covers": fb.Covers, "bound": fb.Bound, "what": fb.What, "result": res, "wall_s": r.wallS, "run": "thorough tier (unconditional)"})
 		}
 	}
+	if os.Getenv("GOVC_NO_FALLBACK") != "" {
+		fns = nil // developer aid: show the raw failures
+	}
 	for _, fn := range fns {
 		// a function whose own contract fails is a violation whatever its fallback says; the fallback still runs,
 		// to attach a concrete failing scenario of the real code to the report when it finds one
